@@ -27,6 +27,8 @@ def plan(tier, seed):
     n = 1500 if tier == "quick" else 15000
     for i in range(n):
         cases.append({"mode": ("simbatch", "simctl", "live", "simctl", "betdaq", "simbatch", "live")[i % 7], "seed": seed, "idx": i})
+    # several markets of one event processed together (requests in flight on one market while a sibling updates or closes)
+    cases += [{"mode": "simevent", "seed": seed, "idx": i} for i in range(250 if tier == "quick" else 5000)]
     # directed case for the listed finding C02-reoffer-leaves-violation-msg (a live order offered again and refused by validate_order)
     cases.insert(0, {"mode": "simctl", "seed": seed, "idx": 1, "directed_reoffer": True})
     return cases
@@ -339,9 +341,26 @@ def run_betdaq(desc, out):
     return tr
 
 
+def run_simevent(desc, out):
+    from . import _sim
+
+    case, snaps = _sim.build({"seed": desc["seed"], "idx": desc["idx"], "profile": "event", "usage": {"p_batch": 0.6}, "overrides": {"script_params": {"n_orders": (2, 7), "p_cancel": 0.4, "p_replace": 0.2, "p_update": 0.1}}})
+    tr = simrun.run_case(case)
+    O.abort_violation(tr, out)
+    O.c02_requests(tr, out, "Betfair", "Simulated")
+    for p in O.unexecuted_packages(tr, case):
+        out.v("accepted-request-never-reached-the-exchange", {"kind": p["kind"], "exec": "Simulated", "event_processing": True}, package={k: p[k] for k in ("pid", "kind", "orders", "market", "tick")})
+    out.rule("package-executed", len(tr.packages))
+    out.d("simevent:%d:%d" % (len(case["markets"]), min(len(tr.packages), 12)))
+    return tr
+
+
 def run(desc):
     out = O.Out(PROPERTY)
     mode = desc["mode"]
+    if mode == "simevent":
+        run_simevent(desc, out)
+        return out.result()
     sample = None
     if mode == "simbatch":
         case, tr = run_sim(desc, out, build_simbatch)
